@@ -69,6 +69,26 @@ def parseOp (line : String) : Option Op :=
         match mkView sorg sk su w h so spad 0, mkView sorg s2k su w h s2o spad 2000000, mkView dorg dk du w h dof dpad 1000000 with
         | some s, some s2, some d =>
           let s2v := match rest with | x :: _ => ((words x).mapM String.toNat?).getD [] | [] => []
+          if alg == "copyov" then
+            -- source and destination are views of ONE underlying image (see harness): sk = "full": W0 = w, no padding, views = whole rows
+            -- [sy, sy+h) / [dy, dy+h) (1-D traversable); otherwise W0 = w + 2, sub-views at (sx, sy) / (dx, dy), then flipped as sk / dk say
+            let oned := sk == "full"
+            let W0 := if oned then w else w + 2
+            let H0 := h + 2
+            let R : Nat := W0 * su + (if oned then 0 else spad)
+            let bitoff : Nat := if isBits sorg then (so / 9) % 8 else 0
+            let sx := if oned then 0 else arg % 3
+            let sy := arg / 3 % 3
+            let dx := if oned then 0 else arg / 9 % 3
+            let dy := arg / 27 % 3
+            let mk (k : String) (x y : Nat) : View :=
+              let b : Int := (bitoff + y * R + x * su : Nat)
+              if k == "flipx" then ⟨b + ((w : Int) - 1) * su, -(su : Int), R, w, h⟩
+              else if k == "flipy" then ⟨b + ((h : Int) - 1) * R, su, -(R : Int), w, h⟩
+              else ⟨b, su, R, w, h⟩
+            let under : View := ⟨bitoff, su, R, W0, H0⟩
+            if sv.length = W0 * H0 then some ⟨alg, sorg, dorg, mk sk sx sy, under, mk dk dx dy, arg, dr, sv, dv, [], sk, dk, pf.toNat?.getD 0⟩ else none
+          else
           if alg == "imgeq" then
             -- two images: rows padded to the alignment (so / dof are the alignments), second image is (w + arg) wide
             let rowU (uu ww al : Nat) (org : String) : Nat := let A := al * (if isBits org then 8 else 1); if al = 0 then ww * uu else ((ww * uu + A - 1) / A) * A
@@ -101,6 +121,21 @@ def pixEq (org : String) (a b : Nat) : Bool :=
     ch (a % 8) (b % 8) && ch (a / 8 % 8) (b / 8 % 8) && ch (a / 64 % 8) (b / 64 % 8)
   else a == b
 
+/-- do both x-iterators of a copy move blocks?  raw pointers to pixel<T,CS> (the std::copy overload -> memmove of the bytes), planar pointer
+    iterators (the overload per plane), raw pointers to a trivially copyable packed pixel (libstdc++'s memmove); flipped left-right /
+    subsampled / transposed views have step iterators, bit-aligned views have bit iterators: the forward element loop -/
+def ptrKind (k : String) : Bool := k == "full" || k == "sub" || k == "flipy"
+/-- whole-view run (both 1-D traversable): `copier_n<I,O>` -> std::copy with GIL's overloads -/
+def blockMove1d (org sk dk : String) : Bool := !isBits org && ptrKind sk && ptrKind dk
+/-- row runs go through detail::copy_n (utilities.hpp), whose qualified std::copy does not see GIL's overloads: only libstdc++'s memmove for
+    trivially copyable pixels (packed_pixel) is a block move -/
+def blockMoveRow (org sk dk : String) : Bool := org == "rgb565" && ptrKind sk && ptrKind dk
+
+/-- NoHazard of Props/C04, decided on the op's views -/
+def noHazard (s d : View) : Bool :=
+  let n := d.w * d.h
+  (List.range n).all (fun j => (List.range j).all (fun i => d.at2d i != s.at2d j))
+
 def grayToRgb (v : Nat) : Nat := v + 256 * v + 65536 * v
 
 def showVals (m : Mem) (d : View) : String := String.join ((specAddrs d).map (fun a => " " ++ toString (m.get a)))
@@ -113,6 +148,16 @@ def model (line : String) : String :=
     let R := o.range
     let fin (extra : String) (m : Mem) := "frame=ok" ++ extra ++ " ;" ++ showVals m o.d
     match o.alg with
+    | "copyov" =>
+      let mu := memOf [(o.s2, o.sv)]
+      "frame=ok ;" ++ showVals (implCopyOv (blockMove1d o.sorg o.sk o.dk) (blockMoveRow o.sorg o.sk o.dk) mu o.s o.d) o.s2
+    | "ufill" => fin "" (implUninitFill m0 o.d o.arg)
+    | "ucopy" => fin "" (implUninitCopy (isBits o.dorg && !(ptrKind o.sk && ptrKind o.dk) && o.pf / 4 % 2 == 0) m0 o.s o.d)
+    | "dcons" =>
+      -- pixel<T,CS> / packed_pixel are not trivially default constructible for GIL's trait: `new (p) value_t()` value-initialises (zero)
+      -- through raw-pointer x-iterators (per plane for planar); step / bit-aligned iterators: default_construct_range is empty
+      fin "" (implDefaultConstruct (isBits o.dorg || !ptrKind o.dk) m0 o.d 0)
+    | "destruct" => fin "" (implDefaultConstruct true m0 o.d 0)      -- trivially destructible pixels
     | "copy" => fin "" (implCopy m0 o.s o.d)
     | "cconv" => fin "" (implConvertCopy m0 o.s o.d (o.sorg != "gray8") grayToRgb)
     | "fill" | "fillx" =>
@@ -151,11 +196,25 @@ def judge (line obs : String) : String :=
         let neObs := hw.find? (fun x => x.startsWith "ne=")
         let logObs := (hw.find? (fun x => x.startsWith "log=")).map (fun x => ((x.drop 4).toString.splitOn ",").filter (· ≠ ""))
         let n := o.d.w * o.d.h
+        if o.alg == "copyov" then
+          -- Spec: the per-pixel loop, demanded when the forward loop is well defined on the ORIGINAL source (no destination pixel written
+          -- earlier is read later: std::copy's precondition); nothing outside the destination view changes in any case
+          if frame ≠ some "frame=ok" then "fail nothing-else-modified:" ++ (frame.getD "?")
+          else if noHazard o.s o.d then
+            let mu := memOf [(o.s2, o.sv)]
+            let want := (specAddrs o.s2).map (specCopy mu o.s o.d).get
+            if got ≠ want then "fail equals-per-pixel-loop" else "ok"
+          else
+            let outside := ((specAddrs o.s2).zip (o.sv.zip got)).all (fun p => (specAddrs o.d).contains p.1 || p.2.1 == p.2.2)
+            if outside then "ok" else "fail nothing-else-modified:pixel"
+        else
         let expect : Option (List Nat × Option Bool × Option (List Nat)) :=
           match o.alg with
           | "copy" => some (o.sv, none, none)
           | "cconv" => some (if o.sorg == "gray8" then o.sv.map grayToRgb else o.sv, none, none)
-          | "fill" | "fillx" => some (List.replicate n o.arg, none, none)
+          | "fill" | "fillx" | "ufill" => some (List.replicate n o.arg, none, none)
+          | "ucopy" => some (o.sv, none, none)
+          | "dcons" | "destruct" => some (got, none, none)     -- trivially constructible / destructible pixels: only the frame is demanded
           | "equal" => some (o.dv, some ((o.sv.zip o.dv).all (fun p => pixEq o.dorg p.1 p.2)), none)
           | "imgeq" =>
             -- equal iff same dimensions and all pixels equal; arg = 2 requests h x w for image 2 (equal dimensions only for square images)
